@@ -6,7 +6,7 @@ open OjgVerif
 
 /-- the operator application falls into a deviation class that `d` carries -/
 def devHit (d : Dev) (o : Op) (l r : Val) : Bool :=
-  (d.uncmp && uncomparablePair o l r) || (d.neqFlt && neqFloatCase o l r) || (d.viaF64 && bigMixed o l r)
+  (d.faultFlag l && uncomparablePair o l r) || (d.neqFlt && neqFloatCase o l r) || (d.viaF64 && bigMixed o l r)
 
 /-- no operator application of the closed tree (operands as the specification evaluates them) falls
 into a deviation class that `d` carries -/
